@@ -427,6 +427,29 @@ theorem normLimit_pos (limit : Int) : 1 ≤ normLimit limit := by
   · split <;> omega
 
 
+/-! ## the proposed in-memory undo only acts when the reload has failed -/
+
+theorem afterFailUndo_snd (v : Variant) (f : Faults) (s : Auth) (o : AuthOut) (u : Cache → Cache) :
+    (afterFailUndo v f s o u).2 = (afterFail f s o).2 := by
+  unfold afterFailUndo
+  simp only
+  split
+  · rename_i h; exact h.2.symm
+  · rfl
+
+theorem afterFailUndo_eq (v : Variant) (f : Faults) (s : Auth) (o : AuthOut) (u : Cache → Cache)
+    (h : (afterFail f s o).2 ≠ .reloadFailed ∨ v.fixRevert = false) :
+    afterFailUndo v f s o u = afterFail f s o := by
+  unfold afterFailUndo
+  simp only
+  split
+  · rename_i hc
+    rcases h with h | h
+    · exact absurd hc.2 h
+    · rw [h] at hc; exact absurd hc.1 (by simp)
+  · rfl
+
+
 /-! ## paging -/
 
 section Paging
